@@ -14,6 +14,15 @@ STRENGTHENED = {
  'C14_1': 'missed at first -> worst-case configuration with a transient failure of a submitted design',
  'C16_2': 'inconclusive at first (models of the uninterpreted x^100 / x^10000 did not reproduce) -> numeric anchor lemmas for large powers + witness formula (violation larger than the replay tolerance)',
  'C20_1': 'missed at first -> hash/equality after in-place update, re-assignment and sync()',
+ 'C01_3': 'missed at first (every check used a fresh comparator) -> `reuse-*`: the same comparator object on vectors of another length',
+ 'C02_3': 'missed at first (one sort per selector) -> the same selector re-sorts the same individuals in another order',
+ 'C06_3': 'missed at first (no parameter declared a precision in the retry harness) -> coarse precision on the first parameter only (also C08)',
+ 'C10_3': 'missed at first (names x0,x1 / f0,f1 are sorted; cost order compared leniently) -> unsorted names, definition order strict',
+ 'C12_3': 'missed at first (fresh generator per check) -> re-initialisation of the same generator object with another level count / bounds',
+ 'C13_3': 'missed at first (level counts <= 4) -> a factor with 130 / 260 / 300 levels',
+ 'C15_3': 'missed at first (dimensions 1..3) -> optimum clause and concrete samples for every dimension 1..12,16,20,24,30 (thorough 1..30)',
+ 'C17_3': 'missed at first (only tag 1 passed explicitly) -> every listing with explicit tags 0, 1, 2',
+ 'C18_3': 'missed at first (distinct position vectors) -> leaders and particles sharing one position vector',
 }
 print('| seed | change (abridged) | needs | verdict of the check(s) on the patched tree | note |')
 print('|---|---|---|---|---|')
